@@ -215,7 +215,21 @@ func (in *Instance) TypeExpr(t *geval.SymType) string {
 	}
 	t = in.canon(t)
 	if in.Path.Preds["derive.IsError("+t.R().Desc+")"] == geval.Yes {
-		return "error" // the generator has established that the type is the error interface
+		if in.basicRep[t.R()] == "errtype:concrete" && !t.IsView() {
+			// derive.IsError also accepts any named type with an Error() string method:
+			// the reading in which the type is such a type and not the interface error
+			n := fmt.Sprintf("%sE%d", Mark, t.R().ID)
+			if !in.decl["errtype:"+n] {
+				in.decl["errtype:"+n] = true
+				in.typeDecl = append(in.typeDecl, fmt.Sprintf("type %s struct{ %sopq%d int }", n, Mark, t.R().ID))
+				in.funcDecl = append(in.funcDecl, fmt.Sprintf("func (%sx %s) Error() string", Mark, n))
+			}
+			return n
+		}
+		return "error" // the reading in which the type is the error interface itself
+	}
+	if in.Path.Preds["derive.IsErrorType("+t.R().Desc+")"] == geval.Yes {
+		return "error" // the generator has established that the type is the predeclared error type
 	}
 	f := in.fact(t)
 	if f == nil {
